@@ -737,6 +737,14 @@ theorem visits_ge (rw : Rune → Int) (b : Buf) (y : Int) (fuel : Nat) (x0 i : I
   | zero => rfl
   | succ n => simp only [visits]; rw [if_neg (by omega)]
 
+theorem visits_congr (rw : Rune → Int) (b b' : Buf) (y : Int) (hw : b'.w = b.w)
+    (hg : ∀ i j, b'.getContent i j = b.getContent i j) :
+    ∀ (f : Nat) (a i : Int), visits rw b' y f a i = visits rw b y f a i := by
+  intro f
+  induction f with
+  | zero => intro a i; rfl
+  | succ m ih => intro a i; simp only [visits, hg, ih, hw]
+
 /-- what a pass over (the rest of) a row guarantees -/
 structure RowPost (c : DrawCfg) (d : Option Style) (s : Scr) (t : ATerm) (x0 y : Int) (fuel : Nat)
     (s' : Scr) (t' : ATerm) : Prop where
@@ -755,7 +763,8 @@ structure RowPost (c : DrawCfg) (d : Option Style) (s : Scr) (t : ATerm) (x0 y :
   flags_same : s'.clear = s.clear ∧ s'.fini = s.fini
   vis_same : t'.visible = t.visible ∧ t'.shape = t.shape
   /-- cells that received payload in this pass were dirty when the pass reached them, and lie in this row right of x0 -/
-  writes : ∃ ws, t'.writes = ws ++ t.writes ∧ ∀ p ∈ ws, p.2 = y ∧ x0 ≤ p.1 ∧ s.cells.dirty p.1 p.2 = true
+  writes : ∃ ws, t'.writes = ws ++ t.writes ∧ ∀ p ∈ ws, p.2 = y ∧ x0 ≤ p.1 ∧ s.cells.dirty p.1 p.2 = true ∧
+    visits c.rw s.cells y fuel x0 p.1 = true
 
 theorem visits_self (rw : Rune → Int) (b : Buf) (y : Int) (fuel : Nat) (x0 : Int) (h : x0 < b.w) :
     visits rw b y (fuel + 1) x0 x0 = true := by
@@ -855,21 +864,34 @@ theorem drawRow_post {c : DrawCfg} (hrw : RwOk c.rw) (hct : c.cornerTrick = fals
           have hsame := vp.other_same p.1 p.2 (Or.inr (Or.inr p2))
           simp only [dirty, inRange_iff, hcw, hch, hsame] at p3 ⊢
           exact p3
+        -- and the spec's column walk reaches it from x too
+        have hvis : ∀ p : Int × Int, x + (s.visit c x y).2.2 ≤ p.1 →
+            visits c.rw (s.visit c x y).1.cells y n (x + (s.visit c x y).2.2) p.1 = true →
+            visits c.rw s.cells y (n + 1) x p.1 = true := by
+          intro p p2 p4
+          have hcw : (s.visit c x y).1.cells.w = s.cells.w := by rw [vp.inv.cw, vp.w_same, inv.cw]
+          rw [visits_congr c.rw s.cells _ y hcw vp.gc_same] at p4
+          simp only [visits, if_pos (show x < s.cells.w by rw [inv.cw]; exact hlt)]
+          have hne : ¬ p.1 = x := by omega
+          rw [if_neg hne]
+          rcases vp.wd_eq with e | e
+          · rw [← e]; exact p4
+          · exfalso; rw [visits_ge _ _ _ _ _ _ (by rw [inv.cw]; omega)] at p4; simp at p4
         by_cases hd : s.cells.dirty x y = true
         · rw [if_pos hd] at hws
           refine ⟨ws ++ [(x, y)], by rw [hws]; simp, ?_⟩
           intro p hp
           rcases List.mem_append.1 hp with hp | hp
-          · obtain ⟨p1, p2, p3⟩ := hmem p hp
-            exact ⟨p1, by omega, hkeep p p1 p2 p3⟩
+          · obtain ⟨p1, p2, p3, p4⟩ := hmem p hp
+            exact ⟨p1, by omega, hkeep p p1 p2 p3, hvis p p2 p4⟩
           · simp only [List.mem_singleton] at hp; subst hp
-            exact ⟨rfl, by simp, hd⟩
+            exact ⟨rfl, by simp, hd, visits_self _ _ _ _ _ (by rw [inv.cw]; exact hlt)⟩
         · have hd' : s.cells.dirty x y = false := by cases h : s.cells.dirty x y <;> simp_all
           rw [hd'] at hws; simp only [Bool.false_eq_true, if_false] at hws
           refine ⟨ws, hws, ?_⟩
           intro p hp
-          obtain ⟨p1, p2, p3⟩ := hmem p hp
-          exact ⟨p1, by omega, hkeep p p1 p2 p3⟩
+          obtain ⟨p1, p2, p3, p4⟩ := hmem p hp
+          exact ⟨p1, by omega, hkeep p p1 p2 p3, hvis p p2 p4⟩
     · rw [if_neg hlt]
       exact { sync := inv.toSyncInv, kcur := inv.kcur, kpen := inv.kpen, gc_same := fun _ _ => rfl, lock_same := fun _ _ => rfl,
               other_same := fun _ _ _ => rfl,
@@ -881,14 +903,6 @@ end Tcell
 
 namespace Tcell
 open Buf
-
-theorem visits_congr (rw : Rune → Int) (b b' : Buf) (y : Int) (hw : b'.w = b.w)
-    (hg : ∀ i j, b'.getContent i j = b.getContent i j) :
-    ∀ (f : Nat) (a i : Int), visits rw b' y f a i = visits rw b y f a i := by
-  intro f
-  induction f with
-  | zero => intro a i; rfl
-  | succ m ih => intro a i; simp only [visits, hg, ih, hw]
 
 /-- what the double loop of draw guarantees from row y0 on -/
 structure RowsPost (c : DrawCfg) (d : Option Style) (s : Scr) (t : ATerm) (y0 : Int) (fuel : Nat)
@@ -907,7 +921,8 @@ structure RowsPost (c : DrawCfg) (d : Option Style) (s : Scr) (t : ATerm) (y0 : 
   cursor_same : s'.cursorx = s.cursorx ∧ s'.cursory = s.cursory ∧ s'.cursorStyle = s.cursorStyle ∧ s'.cursorColor = s.cursorColor
   flags_same : s'.clear = s.clear ∧ s'.fini = s.fini
   vis_same : t'.visible = t.visible ∧ t'.shape = t.shape
-  writes : ∃ ws, t'.writes = ws ++ t.writes ∧ ∀ p ∈ ws, y0 ≤ p.2 ∧ s.cells.dirty p.1 p.2 = true
+  writes : ∃ ws, t'.writes = ws ++ t.writes ∧ ∀ p ∈ ws, y0 ≤ p.2 ∧ s.cells.dirty p.1 p.2 = true ∧
+    visits c.rw s.cells p.2 s.w.toNat 0 p.1 = true
 
 theorem drawRows_succ (c : DrawCfg) (fuel : Nat) (y : Int) (s : Scr) :
     Scr.drawRows c (fuel + 1) y s =
@@ -970,13 +985,14 @@ theorem drawRows_post {c : DrawCfg} (hrw : RwOk c.rw) (hct : c.cornerTrick = fal
         refine ⟨ws2 ++ ws1, by rw [hws2, hws1]; simp, ?_⟩
         intro p hp
         rcases List.mem_append.1 hp with hp | hp
-        · obtain ⟨p1, p2⟩ := hm2 p hp
-          refine ⟨by omega, ?_⟩
-          have hsame := rp.other_same p.1 p.2 (Or.inl (by omega))
-          simp only [dirty, inRange_iff, hcw, hch, hsame] at p2 ⊢
-          exact p2
-        · obtain ⟨p1, _, p3⟩ := hm1 p hp
-          exact ⟨by omega, p3⟩
+        · obtain ⟨p1, p2, p3⟩ := hm2 p hp
+          refine ⟨by omega, ?_, ?_⟩
+          · have hsame := rp.other_same p.1 p.2 (Or.inl (by omega))
+            simp only [dirty, inRange_iff, hcw, hch, hsame] at p2 ⊢
+            exact p2
+          · rw [visits_congr c.rw s.cells _ p.2 hcw rp.gc_same, rp.w_same] at p3; exact p3
+        · obtain ⟨p1, _, p3, p4⟩ := hm1 p hp
+          exact ⟨by omega, p3, by rw [p1]; exact p4⟩
     · rw [if_neg hlt]
       exact { sync := inv, kcur := kc, kpen := kp, gc_same := fun _ _ => rfl, lock_same := fun _ _ => rfl,
               other_same := fun _ _ _ => rfl,
@@ -1052,7 +1068,7 @@ structure DrawPost (c : DrawCfg) (d : Option Style) (s : Scr) (t : ATerm) (s' : 
     (¬ s.cells.inRange s.cursorx s.cursory →
       (c.hasHide = true → t'.visible = some false) ∧
       (c.hasHide = false → t'.cur = some (t.clampX s.cells.w, t.clampY s.cells.h)))
-  writes : ∃ ws, t'.writes = ws ++ t.writes ∧ ∀ p ∈ ws, s.cells.dirty p.1 p.2 = true
+  writes : ∃ ws, t'.writes = ws ++ t.writes ∧ ∀ p ∈ ws, s.cells.dirty p.1 p.2 = true ∧ visited c.rw s.cells p.1 p.2 = true
 
 theorem hideCursor_apply (c : DrawCfg) (s : Scr) (t : ATerm) :
     (t.applyAll (s.hideCursor c).2).grid = t.grid ∧ (t.applyAll (s.hideCursor c).2).w = t.w ∧
@@ -1261,6 +1277,7 @@ theorem draw_post {c : DrawCfg} (hrw : RwOk c.rw) (hct : c.cornerTrick = false) 
   · obtain ⟨ws, hws, hm⟩ := rp.writes
     refine ⟨ws, ?_, ?_⟩
     · rw [k5, hws, f11, g5]
-    · intro p hp; have := (hm p hp).2; rw [hcells2] at this; exact this
+    · intro p hp; have := (hm p hp).2; rw [hcells2, hw2] at this
+      exact ⟨this.1, by simpa [visited, pre.cw] using this.2⟩
 
 end Tcell
